@@ -1,5 +1,5 @@
 (* C01 - stored values read back unchanged, in the connector's Python types. *)
-From FS Require Import Sexp Types Store StoreProofs.
+From FS Require Import Sexp Types Store StoreProofs Dml DmlProofs.
 
 (* for EVERY declared type and EVERY value Snowflake accepts for it (38-digit extremes, full scale,
    0001-01-01 .. 9999-12-31 at microsecond precision, ...) the DuckDB column type it is mapped to can hold
@@ -26,3 +26,24 @@ Example store_holds_somewhere :
   sf_dom TTsNtz (VTs (-62135596800000000)) = true /\ duck_dom (map_type TTsNtz) (VTs (-62135596800000000)) = true.
 Proof. exact store_nonvacuous. Qed.
 Print Assumptions store_holds_somewhere.
+
+(* "every written row is returned exactly once, and no other row or table changes": over the DML model of C04
+   (Dml.v), for ALL databases, targets, column lists and row lists - INSERT appends exactly the written rows after
+   the existing ones, INSERT ... SELECT exactly the selected source rows, and every other table is unchanged *)
+
+
+Theorem written_rows_once : forall d t c rows,
+  let d' := fst (engine d (InsertValues t c rows)) in
+  tget d' t = tget d t ++ map (place c) rows /\ length (tget d' t) = (length (tget d t) + length rows)%nat.
+Proof. exact written_rows_once_l. Qed.
+Print Assumptions written_rows_once.
+
+Theorem copied_rows_once : forall d t c src p,
+  let d' := fst (engine d (InsertSelect t c src p)) in
+  tget d' t = tget d t ++ map (place c) (filter (holds p) (tget d src)).
+Proof. exact copied_rows_once_l. Qed.
+Print Assumptions copied_rows_once.
+
+Theorem other_tables_unchanged : forall d s t', norm (target s) <> norm t' -> tget (fst (engine d s)) t' = tget d t'.
+Proof. exact bystanders_unchanged_l. Qed.
+Print Assumptions other_tables_unchanged.
